@@ -6,6 +6,10 @@
   not save and restore exactly the four state words.
 -/
 import Vita.C07.Lemmas
+import Vita.C07.StreamLemmas
+import Vita.C07.CodeLemmas
+import Vita.C07.EngineLemmas
+import Vita.C07.RandomLemmas
 import Vita.C07.Gen
 namespace Vita.C07
 open Vita.Rng
@@ -67,7 +71,181 @@ theorem seed_deterministic (s : UInt64) (n : Nat) : (Xo.seed s).take n = (Xo.see
 /-- `seed(0)` selects the default seed (as `xoshiro256ss::seed` does). -/
 theorem seed_zero_default : Xo.seed 0 = Xo.seed Xo.defSeed := by decide
 
+/-! ### the same, under every stream configuration the property demands
+
+`Cfg` = formatting state + numpunct facet of the stream the engine is written to and read from
+(Vita/C07/Stream.lean: libstdc++'s `num_put` / `num_get` for `unsigned long`, incl. thousands separators
+and `__verify_grouping`).  `Demanded c`: decimal, `skipws` on, padding (if a width is pending) made of
+white space, and – when the imbued locale groups digits – a thousands separator that is neither a digit
+nor white space.  Any width, adjustment, showbase/uppercase/showpos, any grouping string, any such
+separator. -/
+
+/-- **cfg_state_roundtrip**: written with the code's `operator<<` to a stream in configuration `c` and read
+    back with the code's `operator>>` from the same stream, every state is restored exactly and the
+    stream stays good – for every demanded configuration, every state, every receiving engine. -/
+theorem cfg_state_roundtrip (c : Cfg) (h : Demanded c) (a b : Xo) :
+    saveRestoreC c Gen.writeItems Gen.readIdx a b = some (a, true) := by
+  rw [gen_write, gen_read]; exact cfg_roundtrip_good c h a b
+
+/-- … and the restored engine continues with the same sequence of numbers, forever. -/
+theorem cfg_stream_after_roundtrip (c : Cfg) (h : Demanded c) (a b : Xo) :
+    ∃ r, saveRestoreC c Gen.writeItems Gen.readIdx a b = some (r, true) ∧ ∀ n, r.nth n = a.nth n :=
+  ⟨a, cfg_state_roundtrip c h a b, fun _ => rfl⟩
+
+/-- the classic configuration (what the first model fixed) is demanded -/
+theorem classic_demanded : Demanded Cfg.classic := by decide
+
+/-- in the classic configuration the configuration-aware writer is the writer of `Model.lean` -/
+theorem put_classic (items : List Item) (e : Xo) : putState Cfg.classic items 0 e = writeState items e := by
+  induction items with
+  | nil => rfl
+  | cons it r ih =>
+    cases it with
+    | st i =>
+      simp only [putState, writeState, ih]
+      split
+      · congr 1
+      · rfl
+    | ch c =>
+      simp only [putState, writeState, ih]
+      congr 1
+
+/-- Each hypothesis of `Demanded` is needed – witnesses in the model (the compiled library agrees, see the
+    `cfgrt` requests of the differential run): with `skipws` cleared, with a non-blank fill character
+    and a pending width, with a blank as thousands separator, the SAME text is not read back. -/
+theorem noskipws_witness :
+    saveRestoreC { skipws := false } goodItems goodIdx ⟨1, 2, 3, 4⟩ ⟨9, 9, 9, 9⟩ = some (⟨1, 0, 9, 9⟩, false) := by
+  decide
+theorem fill_witness :
+    saveRestoreC { width := 3, fill := '*', adjust := 1 } goodItems goodIdx ⟨1, 2, 3, 4⟩ ⟨9, 9, 9, 9⟩
+      = some (⟨0, 9, 9, 9⟩, false) := by
+  decide
+theorem fill_digit_witness :   -- silently wrong: no failbit, another state
+    saveRestoreC { width := 3, fill := '7', adjust := 1 } goodItems goodIdx ⟨1, 2, 3, 4⟩ ⟨9, 9, 9, 9⟩
+      = some (⟨771, 2, 3, 4⟩, true) := by
+  decide
+theorem blank_separator_witness :
+    saveRestoreC { facet := true, sep := ' ', grouping := [3] } goodItems goodIdx ⟨1, 222, 333, 444⟩ ⟨9, 9, 9, 9⟩
+      = some (⟨1222333444, 9, 9, 9⟩, false) := by
+  decide
+
+/-! ### the code of the generator itself
+
+`GenCode.prog` is regenerated on every run from the clang AST of `vigna::rotl`, `splitmix64` (constructor,
+`next`), `seed_with_sm64`, `xoshiro256ss::seed`, `operator()`, `operator==` (terms of Vita/C07/U64E.lean:
+`std::uint64_t` arithmetic, shifts ≥ 64 and subscripts outside `state` undefined).  The `gen_*_code`
+theorems say that this code, as it is now, is defined on every input and computes the model of
+Vita/Common/Rng.lean; the others are properties of the code obtained through them. -/
+
+theorem gen_rotl_code (x k : UInt64) (h0 : 0 < k) (h1 : k < 64) : U.rotlOf GenCode.prog x k = some (rotl x k) :=
+  gen_rotl_eq x k h0 h1
+theorem gen_splitmix_code (x : UInt64) : U.smNextOf GenCode.prog x = some (splitmixNext x) := gen_splitmix_eq x
+/-- `operator()`: no undefined behaviour in any state; result and successor state are the model's -/
+theorem gen_next_code (e : Xo) : U.nextOf GenCode.prog (words e) = some ((e.next).1, words (e.next).2) :=
+  gen_next_eq e
+/-- `seed(s)` -/
+theorem gen_seed_code (s : UInt64) (e : Xo) : U.seedOf GenCode.prog s (words e) = some (words (Xo.seed s)) :=
+  gen_seed_eq s e
+/-- `operator==` -/
+theorem gen_eq_code (a b : Xo) : U.eqOf GenCode.prog (words a) (words b) = some (decide (a = b)) := gen_eq_eq a b
+/-- the stream of the translated `operator()` is the model's stream -/
+theorem gen_stream_code (e : Xo) (n : Nat) : genNth (words e) n = some (e.nth n) := genNth_eq e n
+
+/-- **seeding_deterministic**: the state after `seed(s)` – hence every number drawn afterwards – is a function
+    of `s` alone: nothing of the engine's previous state survives a seeding. -/
+theorem seeding_deterministic (s : UInt64) (e e' : Xo) :
+    U.seedOf GenCode.prog s (words e) = U.seedOf GenCode.prog s (words e') ∧
+    ∃ st, U.seedOf GenCode.prog s (words e) = some st ∧ ∀ n, genNth st n = some ((Xo.seed s).nth n) := by
+  refine ⟨by rw [gen_seed_eq, gen_seed_eq], words (Xo.seed s), gen_seed_eq s e, fun n => genNth_eq _ n⟩
+
+/-- **seed_never_all_zero**: no seed puts the engine into the all-zero state (the fixed point of xoshiro256**,
+    from which every draw would be 0). -/
+theorem seed_never_all_zero (s : UInt64) (e : Xo) : U.seedOf GenCode.prog s (words e) ≠ some [0, 0, 0, 0] := by
+  rw [gen_seed_eq]
+  intro h
+  have : words (Xo.seed s) = words ⟨0, 0, 0, 0⟩ := by
+    have h' : words (Xo.seed s) = [0, 0, 0, 0] := by simpa using h
+    rw [h']; rfl
+  exact seed_ne_zero s (words_inj this)
+
+/-- **eq_iff_same_stream**: the code's `operator==` answers `true` exactly when the two engines will produce
+    the same sequence of numbers forever (four equal numbers suffice). -/
+theorem eq_iff_same_stream (a b : Xo) :
+    U.eqOf GenCode.prog (words a) (words b) = some true ↔ ∀ n, genNth (words a) n = genNth (words b) n := by
+  rw [gen_eq_eq]
+  constructor
+  · intro h
+    have hab : a = b := by simpa using h
+    intro n; rw [hab]
+  · intro h
+    have : a = b := state_of_outputs a b (fun n _ => by
+      have := h n
+      rw [genNth_eq, genNth_eq] at this
+      simpa using this)
+    simp [this]
+
+theorem eq_of_four_outputs (a b : Xo) (h : ∀ n, n < 4 → a.nth n = b.nth n) : a = b := state_of_outputs a b h
+
+/-- **stream_after_roundtrip_code**: under every demanded stream configuration the restored engine makes the
+    translated `operator()` produce exactly the numbers the original would have produced. -/
+theorem stream_after_roundtrip_code (c : Cfg) (h : Demanded c) (a b : Xo) :
+    ∃ r, saveRestoreC c Gen.writeItems Gen.readIdx a b = some (r, true) ∧
+      ∀ n, genNth (words r) n = genNth (words a) n :=
+  ⟨a, cfg_state_roundtrip c h a b, fun _ => rfl⟩
+
+/-! ### vita::random: ranges
+
+Integral draws go through libstdc++'s `uniform_int_distribution` (Lemire's method, modelled in
+Vita/Common/Rng.lean and compared bit for bit with the compiled functions); floating-point draws are
+`canonical * (sup - min) + min` with a rounding after every operation: `Rounding` states the IEEE hypotheses used
+(round-to-nearest is monotone and the identity on representable numbers).  `[min, sup)` holds for the
+integral functions; for doubles `min ≤ x` always, `x ≤ sup` when `sup - min` is computed exactly, and `x < sup`
+for every draw iff it holds for the largest canonical value (it does not for e.g. `between(1.0, 2.0)`: the
+differential run constructs that draw, see design/C07.md). -/
+
+/-- `random::between<integral>(min, sup)`, `random::in(range)`: `min ≤ x < sup` for every engine state -/
+theorem between_int_in_range (min sup : Int) (e : Xo) (h : min < sup) (hw : sup - min ≤ 2 ^ 64) :
+    min ≤ (between min sup e).1 ∧ (between min sup e).1 < sup := between_in_range min sup e h hw
+/-- `random::sup(n)` -/
+theorem sup_below (n : Nat) (e : Xo) (h : 0 < n) (hw : n ≤ 2 ^ 64) : (sup n e).1 < n := sup_lt n e h hw
+/-- `random::element(c)`: the index drawn is inside the container -/
+theorem element_in_bounds (size : Nat) (e : Xo) (h : 0 < size) (hw : size ≤ 2 ^ 64) :
+    (elementIdx size e).1 < size := sup_lt size e h hw
+/-- `random::ring(base, width, n)` stays in `[0, n)` -/
+theorem ring_below (base width n : Nat) (e : Xo) (hn : 1 < n) (hn32 : n ≤ 2 ^ 32) :
+    (ring base width n e).1 < n := ring_lt base width n e hn hn32
+/-- `random::between<floating>(min, sup)`: never below `min` -/
+theorem between_real_lower (R : Rounding) (a b c : Rat) (ha : R.rep a) (hab : a ≤ b) (hc : 0 ≤ c) :
+    a ≤ betweenQ R a b c := betweenQ_ge R a b c ha hab hc
+/-- … not above `sup` when the width `sup - min` is representable -/
+theorem between_real_upper (R : Rounding) (a b c : Rat) (hb : R.rep b) (hw : R.rnd (b - a) = b - a)
+    (hab : a ≤ b) (hc : c ≤ 1) : betweenQ R a b c ≤ b := betweenQ_le R a b c hb hw hab hc
+/-- … monotone in the canonical value: `x < sup` for all draws iff for the largest canonical value -/
+theorem between_real_strict_of_max (R : Rounding) (a b c cmax : Rat) (hab : a ≤ b) (hc : c ≤ cmax)
+    (hmax : betweenQ R a b cmax < b) : betweenQ R a b c < b := betweenQ_lt_of_max R a b c cmax hab hc hmax
+/-- `random::boolean(0)` is never true, `random::boolean(1)` always (canonical values lie in `[0, 1)`) -/
+theorem boolean_zero (c : Rat) (hc : 0 ≤ c) : booleanQ 0 c = false := by
+  simp [booleanQ]; exact Rat.not_lt.mpr hc
+theorem boolean_one (c : Rat) (hc : c < 1) : booleanQ 1 c = true := by
+  simp [booleanQ, hc]
+
 /-! ### non-vacuity -/
+/-- exact arithmetic is a `Rounding` -/
+def exactRounding : Rounding := ⟨id, fun _ _ h => h, fun _ => True, fun _ _ => rfl, trivial⟩
+example : (1 : Rat) ≤ betweenQ exactRounding 1 3 1 :=
+  between_real_lower exactRounding 1 3 1 trivial (by decide) (by decide)
+example : betweenQ exactRounding 1 3 1 ≤ 3 :=
+  between_real_upper exactRounding 1 3 1 trivial rfl (by decide) (by decide)
+example : U.seedOf GenCode.prog 0 (words ⟨7, 7, 7, 7⟩) = some (words (Xo.seed Xo.defSeed)) := by
+  rw [gen_seed_eq]; rfl
+example : U.rotlOf GenCode.prog 1 64 = none := by decide
+example : Demanded { facet := true, sep := ',', grouping := [3], width := 30, fill := ' ', adjust := 2,
+                     showbase := true, showpos := true } := by decide
+example : putState { facet := true, sep := ',', grouping := [3, 2] } Gen.writeItems 0
+      ⟨1, 20000, 0, 18446744073709551615⟩ = some "1 20,000 0 1,84,46,74,40,73,70,95,51,615".toList := by decide
+example : saveRestoreC { facet := true, sep := '.', grouping := [3], width := 12, adjust := 1 }
+      Gen.writeItems Gen.readIdx ⟨1234567, 20, 0, 18446744073709551615⟩ ⟨9, 9, 9, 9⟩
+    = some (⟨1234567, 20, 0, 18446744073709551615⟩, true) := by decide
 example : writeState Gen.writeItems ⟨1, 20, 0, 18446744073709551615⟩ =
     some "1 20 0 18446744073709551615".toList := by decide
 example : readState Gen.readIdx ⟨9, 9, 9, 9⟩ "1 20 0 18446744073709551615".toList false =
